@@ -33,7 +33,7 @@ type C19 struct{}
 
 func (C19) ID() string { return "C19" }
 
-var c19Kinds = []string{"cmd", "upd", "drop", "stall", "logout", "idle", "rmuser", "close", "burst", "flood"}
+var c19Kinds = []string{"cmd", "upd", "drop", "stall", "logout", "idle", "rmuser", "close", "burst", "flood", "fetchdrop"}
 
 func (C19) Generate(r *core.Rand, tier string, idx int) *core.Scenario {
 	sc := &core.Scenario{Property: "C19", Cfg: map[string]int{}}
@@ -43,8 +43,11 @@ func (C19) Generate(r *core.Rand, tier string, idx int) *core.Scenario {
 	if r.P(1, 4) {
 		sc.Cfg["gated"] = 1
 	}
-	//                 cmd upd drop stall logout idle rmuser close burst flood
-	weights := []int{30, 10, 4, 2, 3, 4, 1, 1, 14, 2}
+	if r.P(1, 3) {
+		sc.Cfg["bigbox"] = 1
+	}
+	//                 cmd upd drop stall logout idle rmuser close burst flood fetchdrop
+	weights := []int{30, 10, 4, 2, 3, 4, 1, 1, 14, 2, 2}
 	n := r.Range(20, 60)
 	for i := 0; i < n; i++ {
 		a := core.Action{K: c19Kinds[r.Weighted(weights)], S: r.Intn(sc.Cfg["nsess"])}
@@ -193,8 +196,12 @@ func (C19) Execute(sc *core.Scenario, keepLog bool) *core.Result {
 		// a few messages to work on
 		for ui := 0; ui < nusers; ui++ {
 			ss[ui].s.Cmd("CREATE other")
-			for k := 0; k < 3; k++ {
-				g := e.NewMessage(k, gen.Opts{})
+			nmsg := 3
+			if sc.C("bigbox") == 1 {
+				nmsg = 16 // more responses to one FETCH than the session buffers
+			}
+			for k := 0; k < nmsg; k++ {
+				g := e.NewMessage(k, gen.Opts{BigBody: 1500 * sc.C("bigbox")})
 				ss[ui].s.Do(wire.WithLiteral("APPEND INBOX ", g.Bytes, ""))
 			}
 		}
@@ -387,6 +394,22 @@ func (C19) Execute(sc *core.Scenario, keepLog bool) *core.Result {
 				floods = append(floods, floodDone)
 				e.St.Probes["update_floods"]++
 				e.Tr.Event("flood", ui, n)
+			case "fetchdrop":
+				// the client asks for everything, stops reading, and goes away while the server
+				// is in the middle of the answer: the command that was producing responses
+				// must end, the session must be released
+				if !alive || cs.stall || cs.idle || !cs.sel || closed || removed[cs.user] {
+					return
+				}
+				s.C.Conn.SetWriteStall(true)
+				s.W.Sim.SetLabel(s.Label)
+				s.C.Conn.ClientSend([]byte(s.C.NextTag() + " FETCH 1:* (UID BODY.PEEK[])\r\n"))
+				e.W.Quiesce()
+				s.C.Conn.ClientReset()
+				s.C.Conn.SetWriteStall(false)
+				s.C.Dead = true
+				e.St.Faults["conn_reset_mid_response"]++
+				e.Tr.Event("fetchdrop", s.Label)
 			case "drop":
 				if s.C.Dead {
 					return
